@@ -855,6 +855,15 @@ func (f *Frame) convert(x *ssa.Convert, reach string, st *State) {
 		h := f.heap(st, "H_uint8")
 		f.ctx.Fact(fmt.Sprintf("(= (content %s %s) %s)", h, s, v))
 		f.ctx.Fact(fmt.Sprintf("(forall ((i Int)) (! (=> (and (<= 0 i) (< i (slen %s))) (= (select %s (selem %s i)) (sat %s i))) :pattern ((select %s (selem %s i)))))", v, h, s, v, h, s))
+	case isRuneSlice(from) && isString(to):
+		// string([]rune{c}) with one ASCII rune is the one-byte string c (the only case modelled;
+		// anything else is an arbitrary string)
+		r := f.havocOf(to, x.Name(), st)
+		e0 := fmt.Sprintf("(select %s (selem %s 0))", f.heap(st, "H_int32"), v)
+		one := fmt.Sprintf("(and (= (slen_ %s) 1) (<= 0 %s) (< %s 128))", v, e0, e0)
+		f.ctx.Fact(fmt.Sprintf("(=> %s (and (= (slen %s) 1) (= (sat %s 0) %s)))", one, r, r, e0))
+		f.ctx.Fact(fmt.Sprintf("(=> %s (forall ((b Str)) (! (=> (and (= (slen b) 1) (= (sat b 0) %s)) (= b %s)) :pattern ((slen b)))))", one, e0, r))
+		f.vals[x] = r
 	case f.ctx.sortOf(from) == f.ctx.sortOf(to) && f.ctx.sortOf(from) != "Int":
 		f.define(x, v)
 	default:
